@@ -92,11 +92,21 @@ func vfC22Episode(rec *evid.Rec, ep int) int {
 	var ops []string
 	points := 0
 	var firstViolation string
+	// the request currently in flight may already have replaced acknowledged
+	// bytes in its own range (or cut the file): both old and new are fine there
+	var flightOff, flightTrunc = -1, -1
+	var flightData []byte
 	check := func(where string) {
 		points++
 		d, _ := fs.DurableBytes("/f")
 		for i, v := range ack.b {
 			if v < 0 {
+				continue
+			}
+			if flightTrunc >= 0 && i >= flightTrunc {
+				continue
+			}
+			if flightOff >= 0 && i >= flightOff && i < flightOff+len(flightData) && i < len(d) && d[i] == flightData[i-flightOff] {
 				continue
 			}
 			if i >= len(d) || int16(d[i]) != v {
@@ -130,7 +140,9 @@ func vfC22Episode(rec *evid.Rec, ep int) int {
 			}
 			ops = append(ops, fmt.Sprintf("WRITE off=%d len=%d stable=%d", off, n, stable))
 			rec.Eval(1)
+			flightOff, flightData = off, data
 			w, _ := c.write(fh, uint64(off), stable, data)
+			flightOff, flightData = -1, nil
 			if w == nil || w.Status != 0 {
 				continue
 			}
@@ -187,7 +199,9 @@ func vfC22Episode(rec *evid.Rec, ep int) int {
 		default:
 			ns := rng.Intn(len(model) + 4)
 			ops = append(ops, fmt.Sprintf("SETATTR size=%d", ns))
+			flightTrunc = ns
 			r, _ := c.setattr(fh, xdrw.Sattr3{Size: xdrw.U64p(uint64(ns))})
+			flightTrunc = -1
 			if r == nil || r.Status != 0 {
 				continue
 			}
